@@ -964,6 +964,11 @@ def run_sequence(seq):
         w = World(call, shared)
         shared.cur = w
         CURRENT[0] = w
+        if shared.breaker is not None:
+            # a health check looks at the breaker between calls: reading the public state changes nothing
+            pub = shared.breaker.state
+            if pub.name != shared.breaker._state.name:
+                w.trace.append(["X", "state-property", pub.name, shared.breaker._state.name])
         who = "default"
         CLOCK.sleep_hook = lambda s, w=w: w.sleeper_sync("default", s)
         if call["async"]:
